@@ -271,7 +271,9 @@ fn attr_payload(rng: &mut Rng) -> String {
 /// payload that need not be what the attribute's owner expects (syn accepts every balanced token tree)
 fn odd_attr(rng: &mut Rng) -> String {
     let name = ["cfg_attr", "cfg", "derive", "doc", "allow", "repr", "serde", "validate", "tauri::command", "command", "specta::specta", "ts",
-        "schemars", "non_exhaustive", "deprecated", "path", "must_use", "inline", "tokio::main", "cfg_attr", "cfg_attr"][rng.below(21)];
+        "schemars", "non_exhaustive", "deprecated", "path", "must_use", "inline", "tokio::main", "cfg_attr", "cfg_attr",
+        // attribute paths with a leading `::`, a single segment, many segments
+        "::command", "::tauri::command", "::serde", "crate::macros::tauri::command", "::derive", "::validate"][rng.below(27)];
     let payload = match rng.below(12) {
         0 => "feature = \"serde\", derive(Serialize, Deserialize)".to_string(),
         1 => "feature = \"serde\" derive(Serialize)".to_string(),               // no top-level comma
@@ -314,7 +316,12 @@ fn exotic_item(rng: &mut Rng, k: usize) -> String {
     let ty = |rng: &mut Rng| EXOTIC_TYPES[rng.below(EXOTIC_TYPES.len())].to_string();
     let idents = ["r#type", "r#fn", "übung", "名前", "_", "__", "a1", "self_", "Ünïcode", "x"];
     let id = |rng: &mut Rng| idents[rng.below(idents.len())].to_string();
-    match [0, 1, 1, 1, 2, 2, 3, 4, 5, 6, 7, 8, 9, 9, 9, 10, 10][rng.below(17)] {
+    match [0, 1, 1, 1, 2, 2, 3, 4, 5, 6, 7, 8, 9, 9, 9, 10, 10, 11][rng.below(18)] {
+        11 => {
+            // type aliases, also such that the bare names form a cycle across two modules (each module's own `Batch` / `Key`
+            // is a different type: valid Rust), reachable from a command
+            format!("pub mod left_{k} {{\n    pub type Batch = Vec<super::right_{k}::Key>;\n    pub type Alone = Batch;\n}}\npub mod right_{k} {{\n    pub struct Batch;\n    pub type Key = Batch;\n}}\npub type Batch = Vec<Key>;\npub type Key = Batch;\npub type SelfRef = Option<Box<SelfRef>>;\n#[derive(Serialize, Deserialize)]\npub struct UsesAlias{k} {{ pub b: Batch, pub k: Key, pub s: SelfRef }}\n#[tauri::command]\npub fn alias_cmd_{k}(b: Batch, k: left_{k}::Batch) -> Key {{ todo!() }}\n", k = k)
+        }
         10 => {
             // numeric validators with every spelling of a bound, on fields of number / string / list types, reachable from a command
             let nums = ["NaN", "nan", "inf", "-inf", "1e400", "-0.0", "5", "0", "-3.5", "18446744073709551616", "1E3", "f64::MAX", "u8::MAX as f64", "007", "+2"];
